@@ -82,11 +82,14 @@ PROPS = {
         "harness": "c16",
         "theorems": ["DL.C16_rows", "DL.C16_order", "DL.C16_stable", "DL.C16_shape", "DL.C16_default", "DL.C16_normalize",
                      "DL.C16_largest", "DL.C16_scale", "DL.C16_refuse", "DL.C16_columns", "DL.C16_sig7", "DL.C16_shown",
-                     "DL.floorLog10_spec", "DL.roundHalfEven_spec"],
+                     "DL.floorLog10_spec", "DL.roundHalfEven_spec", "DL.C16_value_read_back", "DL.C16_layout_exact",
+                     "DL.renderSig7_value", "DL.fmtG7_value"],
         "partial": ["C16_sig7: the seven digits shown are a correct rounding of the exact quotient (10^6 <= n < 10^7, error at most half a unit "
-                    "of the seventh digit; decimal exponent from digit counts, round half even); how they are laid out (renderSig7: positional "
-                    "or scientific, trailing zeros dropped) and the float rounding of bf/norm are outside the theorems: the harness compares "
-                    "the printed strings, skipping values within 1e-3 of a rounding tie",
+                    "of the seventh digit; decimal exponent from digit counts, round half even); C16_layout_exact / C16_value_read_back: the "
+                    "text they are laid out as (positional or scientific, trailing zeros dropped, optional minus) reads back as exactly "
+                    "n*10^(e-6), so the value column denotes the stored scaled value up to half a unit of the seventh digit; the float "
+                    "rounding of bf/norm (the model divides exactly) is outside the theorems: the harness compares the printed strings, "
+                    "skipping values within 1e-3 of a rounding tie",
                     "'printing never alters the stored values' is a runtime clause: checked by the harness snapshot"],
         "assumptions": ["exact rational arithmetic in the model"],
     },
